@@ -439,12 +439,25 @@ impl FromJson for AnnotationDataSet {
         debug(self.config(), || {
             format!("AnnotationStore::from_json_file: filename={:?}", filename)
         });
+        // an included file may itself hold an @include: bound the nesting so that a file that
+        // (directly or indirectly) includes itself is an error rather than unbounded recursion
+        thread_local! { static INCLUDE_DEPTH: std::cell::Cell<usize> = std::cell::Cell::new(0); }
+        const MAX_INCLUDE_DEPTH: usize = 32;
+        if INCLUDE_DEPTH.with(|d| d.get()) >= MAX_INCLUDE_DEPTH {
+            return Err(StamError::DeserializationError(format!(
+                "@include of {} is nested more than {} levels deep (does a file include itself?)",
+                filename, MAX_INCLUDE_DEPTH
+            )));
+        }
         let reader = open_file_reader(filename, self.config())?;
         let deserializer = &mut serde_json::Deserializer::from_reader(reader);
 
-        DeserializeAnnotationDataSet::new(self)
+        INCLUDE_DEPTH.with(|d| d.set(d.get() + 1));
+        let result = DeserializeAnnotationDataSet::new(self)
             .deserialize(deserializer)
-            .map_err(|e| StamError::DeserializationError(e.to_string()))?;
+            .map_err(|e| StamError::DeserializationError(e.to_string()));
+        INCLUDE_DEPTH.with(|d| d.set(d.get() - 1));
+        result?;
 
         Ok(())
     }
